@@ -31,8 +31,14 @@ static ent_t *M; static int MN, MCAP;
 /* the last two names are replaced at start-up by a pair of distinct names with identical full 32-bit
  * MurmurHash3 values (birthday search with the reference hash): the table matches names by (hash, strcmp) */
 static char COLLA[16] = "c1", COLLB[16] = "c2";
-static const char *NAMES[] = {"a", "A", "b", "B", "ab", "aB", "Ab", "zz", COLLA, COLLB};
-#define NNAMES 10
+/* long names (257, 300 and 4000 bytes; two of them differ only in the case of the last letter, two only in the last letter) */
+static char LONG1[258], LONG2[301], LONG3[301], LONG4[301], LONG5[4001];
+static const char *NAMES[] = {"a", "A", "b", "B", "ab", "aB", "Ab", "zz", COLLA, COLLB, LONG1, LONG2, LONG3, LONG4, LONG5};
+#define NNAMES 15
+static void long_names(void) {
+    memset(LONG1, 'n', 257); memset(LONG2, 'n', 300); memset(LONG3, 'n', 300); memset(LONG4, 'n', 300); memset(LONG5, 'n', 4000);
+    LONG2[299] = 'a'; LONG3[299] = 'A'; LONG4[299] = 'b'; LONG5[3999] = 'q';
+}
 static int cmp_u64(const void *a, const void *b) { uint64_t x = *(const uint64_t *)a, y = *(const uint64_t *)b; return x < y ? -1 : x > y; }
 static void find_collision(void) {
     int N = 300000; uint64_t *h = hm_alloc(sizeof(uint64_t) * (size_t)N); char b[16];
@@ -289,7 +295,7 @@ int main(int argc, char **argv) {
     if (P != 8 && P != 11) { fprintf(stderr, "h_listtbl: unsupported property %s\n", VF.prop); return 2; }
     vf_ledger_enable(true);
     long ncases = vf_arg_long("cases", 960);
-    find_collision();
+    find_collision(); long_names();
     for (long c = 0; c < ncases; c++) if (vf_mine(c)) history(c);
     return vf_finish() ? 1 : 0;
 }
